@@ -1,5 +1,8 @@
 #!/bin/sh
 # Build the Lean project from files on disk only (offline).
 set -e
-cd "$(dirname "$0")/lean"
+DIR="$(cd "$(dirname "$0")" && pwd)"
+# regenerate the translated tables from the current /repo sources first (stdlib only)
+/venv/bin/python "$DIR/harness/gen_tables.py" "${OPTYX_REPO:-/repo}" "$DIR/lean/Optyx/Generated" || true
+cd "$DIR/lean"
 lake build
